@@ -201,8 +201,8 @@ class PlaceInterp(RecInterp):
         base = strip_generics(ty).split('<')[0]
         if facts is not None and depth < 4 and facts.has_method('core::default::Default', base, 'default'):
             dd = facts.method('core::default::Default', base, 'default')
-            if facts.has_body(dd) and not facts.body(dd).get('derived'):
-                return self.apply_fn(facts.body(dd), [])            # a hand-written Default
+            if facts.has_body(dd) and (not facts.body(dd).get('derived') or (getattr(facts, 'adts', {}).get(base) or {}).get('kind') == 'enum'):
+                return self.apply_fn(facts.body(dd), [])            # a hand-written Default, or the `#[default]` variant of an enum
         if facts is not None and base in getattr(facts, 'adts', {}) and depth < 4 and not base.startswith('toml_edit::item::Item'):
             adt = facts.adts[base]
             if adt.get('kind') == 'struct' and adt.get('variants') and all(f.get('name') and not str(f['name']).isdigit() for f in adt['variants'][0].get('fields', [])):
